@@ -100,11 +100,7 @@ class _Explainer:
         d = np.asarray(self.dist(pt, pt[0], pt[-1]), dtype=float)
         if self.ctx is not None and self.geo_checks < 4:
             self.geo_checks += 1
-            big_int = np.asarray(pt).dtype.kind in 'iu' and float(np.max(np.abs(pt))) > 1e8
-            if self.distname == 'perpendicular' and big_int:
-                # int64 products inside the perpendicular distance wrap at this magnitude: known finding F-2 of C20
-                self.ctx.ood('distance-model', 'perpendicular-on-large-int64(F-2)')
-            else:
+            if True:
                 g = geo_dist(pt, self.distname)
                 sc = float(np.max(np.abs(pt))) + float(np.hypot(*(np.asarray(pt[-1], float) - np.asarray(pt[0], float))))
                 tol_ = 64 * EPS * sc + 1e-9 * g
